@@ -331,8 +331,11 @@ fn sort_events(events: Vec<DEvent>) -> Vec<DEvent> {
 
 // ------------------------------------------------------------------ inotify translation
 
+/// The path notify reports for a path relative to the cwd: the cwd joined with the path
+/// as it was registered, `..` components included (calibrated:
+/// `file_watch_registered_through_dotdot`).
 fn abs(rel: &str) -> PathBuf {
-    PathBuf::from(format!("{}/{}", SIM_CWD, rel))
+    Path::new(SIM_CWD).join(rel)
 }
 
 fn ev(kind: EventKind, rel: &str) -> RawEvent {
@@ -369,8 +372,11 @@ pub enum SaveStyle {
 pub struct Watches {
     /// watched directories (relative paths)
     pub dirs: BTreeSet<String>,
-    /// single-file (inode) watches
-    pub files: BTreeSet<String>,
+    /// single-file (inode) watches: normalized path -> the spelling it was registered
+    /// with, which is the one its events carry
+    pub files: BTreeMap<String, String>,
+    /// recursive watches: normalized root -> the spelling it was registered with
+    pub roots: BTreeMap<String, String>,
     next_cookie: usize,
 }
 
@@ -379,9 +385,10 @@ impl Watches {
         self.dirs.contains(gen::parent(rel)) || (gen::parent(rel).is_empty() && self.dirs.contains("."))
     }
 
-    pub fn watch_recursive(&mut self, fs: &SimFs, rel: &str) {
-        let rel = gen::normalize(rel);
+    pub fn watch_recursive(&mut self, fs: &SimFs, raw: &str) {
+        let rel = gen::normalize(raw);
         if fs.user_is_dir(&rel) {
+            self.roots.insert(rel.clone(), raw.trim_end_matches('/').to_owned());
             self.dirs.insert(rel.clone());
             for (p, c) in fs.snapshot(&rel) {
                 if c.is_none() {
@@ -389,20 +396,52 @@ impl Watches {
                 }
             }
         } else if fs.user_exists(&rel) {
-            self.files.insert(rel);
+            self.files.insert(rel, raw.to_owned());
         }
     }
 
-    pub fn watch_file(&mut self, fs: &SimFs, rel: &str) {
-        let rel = gen::normalize(rel);
+    pub fn watch_file(&mut self, fs: &SimFs, raw: &str) {
+        let rel = gen::normalize(raw);
         if fs.user_exists(&rel) && !fs.user_is_dir(&rel) {
-            self.files.insert(rel);
+            self.files.insert(rel, raw.to_owned());
         }
+    }
+
+    /// the spelling the events of a directory watch carry for `rel`: the root as it was
+    /// registered, followed by the path below it
+    fn spell(&self, rel: &str) -> String {
+        let mut best: Option<(&String, &String)> = None;
+        for (norm, raw) in &self.roots {
+            let covers = norm == "." || norm.is_empty() || rel == norm || rel.starts_with(&format!("{}/", norm));
+            if covers && best.map(|(b, _)| b.len() < norm.len()).unwrap_or(true) {
+                best = Some((norm, raw));
+            }
+        }
+        match best {
+            Some((norm, raw)) if norm == "." || norm.is_empty() => format!("{}/{}", raw, rel),
+            Some((norm, raw)) => format!("{}{}", raw, &rel[norm.len()..]),
+            None => rel.to_owned(),
+        }
+    }
+
+    /// every absolute path events about `rel` may carry
+    pub fn event_paths(&self, rel: &str) -> Vec<PathBuf> {
+        let mut out = vec![abs(&self.spell(rel))];
+        if let Some(raw) = self.files.get(rel) {
+            out.push(abs(raw));
+        }
+        out
+    }
+
+    /// the spelling the events of the inode watch on `rel` carry
+    fn file_watch(&self, rel: &str) -> Option<String> {
+        self.files.get(rel).cloned()
     }
 
     pub fn unwatch(&mut self, rel: &str) {
         let rel = gen::normalize(rel);
         self.files.remove(&rel);
+        self.roots.remove(&rel);
         let prefix = format!("{}/", rel);
         self.dirs.retain(|d| *d != rel && !d.starts_with(&prefix));
     }
@@ -442,7 +481,7 @@ pub fn apply_op(
                 fs.user_mkdir(d);
                 if i == 0 {
                     if watches.dir_watched(d) {
-                        out.push(ev(EventKind::Create(CreateKind::Folder), d));
+                        out.push(ev(EventKind::Create(CreateKind::Folder), &watches.spell(d)));
                         raced = true;
                     }
                 }
@@ -453,28 +492,28 @@ pub fn apply_op(
                 }
             }
             let dir_watched = watches.dir_watched(path) && !raced;
-            let file_watched = watches.files.contains(path);
+            let file_watch = watches.file_watch(path);
             if !existed {
                 fs.user_write(path, &bytes);
                 if dir_watched {
-                    out.push(ev(EventKind::Create(CreateKind::File), path));
-                    out.push(open(path));
-                    out.push(modify(path));
-                    out.push(close_write(path));
+                    out.push(ev(EventKind::Create(CreateKind::File), &watches.spell(path)));
+                    out.push(open(&watches.spell(path)));
+                    out.push(modify(&watches.spell(path)));
+                    out.push(close_write(&watches.spell(path)));
                 }
             } else {
                 match style {
                     SaveStyle::InPlace => {
                         fs.user_write(path, &bytes);
                         if dir_watched {
-                            out.push(open(path));
-                            out.push(modify(path));
-                            out.push(close_write(path));
+                            out.push(open(&watches.spell(path)));
+                            out.push(modify(&watches.spell(path)));
+                            out.push(close_write(&watches.spell(path)));
                         }
-                        if file_watched {
-                            out.push(open(path));
-                            out.push(modify(path));
-                            out.push(close_write(path));
+                        if let Some(raw) = &file_watch {
+                            out.push(open(raw));
+                            out.push(modify(raw));
+                            out.push(close_write(raw));
                         }
                     }
                     SaveStyle::Atomic => {
@@ -483,47 +522,47 @@ pub fn apply_op(
                         fs.user_rename(&tmp, path);
                         if dir_watched {
                             let cookie = watches.cookie();
-                            out.push(ev(EventKind::Create(CreateKind::File), &tmp));
-                            out.push(open(&tmp));
-                            out.push(modify(&tmp));
-                            out.push(close_write(&tmp));
+                            out.push(ev(EventKind::Create(CreateKind::File), &watches.spell(&tmp)));
+                            out.push(open(&watches.spell(&tmp)));
+                            out.push(modify(&watches.spell(&tmp)));
+                            out.push(close_write(&watches.spell(&tmp)));
                             out.push(RawEvent {
                                 kind: EventKind::Modify(ModifyKind::Name(RenameMode::From)),
-                                paths: vec![abs(&tmp)],
+                                paths: vec![abs(&watches.spell(&tmp))],
                                 tracker: Some(cookie),
                             });
                             out.push(RawEvent {
                                 kind: EventKind::Modify(ModifyKind::Name(RenameMode::To)),
-                                paths: vec![abs(path)],
+                                paths: vec![abs(&watches.spell(path))],
                                 tracker: Some(cookie),
                             });
                             out.push(RawEvent {
                                 kind: EventKind::Modify(ModifyKind::Name(RenameMode::Both)),
-                                paths: vec![abs(&tmp), abs(path)],
+                                paths: vec![abs(&watches.spell(&tmp)), abs(&watches.spell(path))],
                                 tracker: Some(cookie),
                             });
                         }
-                        if file_watched {
+                        if let Some(raw) = &file_watch {
                             // the old inode is gone: its watch reports that and dies
-                            out.push(ev(EventKind::Modify(ModifyKind::Metadata(MetadataKind::Any)), path));
-                            out.push(ev(EventKind::Remove(RemoveKind::File), path));
+                            out.push(ev(EventKind::Modify(ModifyKind::Metadata(MetadataKind::Any)), raw));
+                            out.push(ev(EventKind::Remove(RemoveKind::File), raw));
                             watches.files.remove(path);
                         }
                     }
                     SaveStyle::DeleteRecreate => {
                         fs.user_remove(path);
                         fs.user_write(path, &bytes);
-                        if file_watched {
-                            out.push(ev(EventKind::Modify(ModifyKind::Metadata(MetadataKind::Any)), path));
-                            out.push(ev(EventKind::Remove(RemoveKind::File), path));
+                        if let Some(raw) = &file_watch {
+                            out.push(ev(EventKind::Modify(ModifyKind::Metadata(MetadataKind::Any)), raw));
+                            out.push(ev(EventKind::Remove(RemoveKind::File), raw));
                             watches.files.remove(path);
                         }
                         if dir_watched {
-                            out.push(ev(EventKind::Remove(RemoveKind::File), path));
-                            out.push(ev(EventKind::Create(CreateKind::File), path));
-                            out.push(open(path));
-                            out.push(modify(path));
-                            out.push(close_write(path));
+                            out.push(ev(EventKind::Remove(RemoveKind::File), &watches.spell(path)));
+                            out.push(ev(EventKind::Create(CreateKind::File), &watches.spell(path)));
+                            out.push(open(&watches.spell(path)));
+                            out.push(modify(&watches.spell(path)));
+                            out.push(close_write(&watches.spell(path)));
                         }
                     }
                 }
@@ -533,27 +572,27 @@ pub fn apply_op(
             if let Some(bytes) = fs.user_read(path) {
                 fs.user_write(path, &bytes);
                 if watches.dir_watched(path) {
-                    out.push(open(path));
-                    out.push(modify(path));
-                    out.push(close_write(path));
+                    out.push(open(&watches.spell(path)));
+                    out.push(modify(&watches.spell(path)));
+                    out.push(close_write(&watches.spell(path)));
                 }
-                if watches.files.contains(path) {
-                    out.push(open(path));
-                    out.push(modify(path));
-                    out.push(close_write(path));
+                if let Some(raw) = watches.file_watch(path) {
+                    out.push(open(&raw));
+                    out.push(modify(&raw));
+                    out.push(close_write(&raw));
                 }
             }
         }
         Op::RemoveFile { path } => {
             if fs.user_exists(path) && !fs.user_is_dir(path) {
                 fs.user_remove(path);
-                if watches.files.contains(path) {
-                    out.push(ev(EventKind::Modify(ModifyKind::Metadata(MetadataKind::Any)), path));
-                    out.push(ev(EventKind::Remove(RemoveKind::File), path));
+                if let Some(raw) = watches.file_watch(path) {
+                    out.push(ev(EventKind::Modify(ModifyKind::Metadata(MetadataKind::Any)), &raw));
+                    out.push(ev(EventKind::Remove(RemoveKind::File), &raw));
                     watches.files.remove(path);
                 }
                 if watches.dir_watched(path) {
-                    out.push(ev(EventKind::Remove(RemoveKind::File), path));
+                    out.push(ev(EventKind::Remove(RemoveKind::File), &watches.spell(path)));
                 }
             }
         }
@@ -583,20 +622,20 @@ pub fn apply_op(
             if from_watched {
                 out.push(RawEvent {
                     kind: EventKind::Modify(ModifyKind::Name(RenameMode::From)),
-                    paths: vec![abs(from)],
+                    paths: vec![abs(&watches.spell(from))],
                     tracker: Some(cookie),
                 });
             }
             if to_watched {
                 out.push(RawEvent {
                     kind: EventKind::Modify(ModifyKind::Name(RenameMode::To)),
-                    paths: vec![abs(to)],
+                    paths: vec![abs(&watches.spell(to))],
                     tracker: Some(cookie),
                 });
                 if from_watched {
                     out.push(RawEvent {
                         kind: EventKind::Modify(ModifyKind::Name(RenameMode::Both)),
-                        paths: vec![abs(from), abs(to)],
+                        paths: vec![abs(&watches.spell(from)), abs(&watches.spell(to))],
                         tracker: Some(cookie),
                     });
                 }
@@ -616,20 +655,20 @@ pub fn apply_op(
                 if from_watched {
                     out.push(RawEvent {
                         kind: EventKind::Modify(ModifyKind::Name(RenameMode::From)),
-                        paths: vec![abs(from)],
+                        paths: vec![abs(&watches.spell(from))],
                         tracker: Some(cookie),
                     });
                 }
                 if to_watched {
                     out.push(RawEvent {
                         kind: EventKind::Modify(ModifyKind::Name(RenameMode::To)),
-                        paths: vec![abs(to)],
+                        paths: vec![abs(&watches.spell(to))],
                         tracker: Some(cookie),
                     });
                     if from_watched {
                         out.push(RawEvent {
                             kind: EventKind::Modify(ModifyKind::Name(RenameMode::Both)),
-                            paths: vec![abs(from), abs(to)],
+                            paths: vec![abs(&watches.spell(from)), abs(&watches.spell(to))],
                             tracker: Some(cookie),
                         });
                     }
@@ -655,22 +694,22 @@ fn remove_dir_events(fs: &SimFs, watches: &mut Watches, dir: &str, out: &mut Vec
         if is_dir {
             remove_dir_events(fs, watches, &child, out);
         } else {
-            if watches.files.contains(&child) {
-                out.push(ev(EventKind::Modify(ModifyKind::Metadata(MetadataKind::Any)), &child));
-                out.push(ev(EventKind::Remove(RemoveKind::File), &child));
+            if let Some(raw) = watches.file_watch(&child) {
+                out.push(ev(EventKind::Modify(ModifyKind::Metadata(MetadataKind::Any)), &raw));
+                out.push(ev(EventKind::Remove(RemoveKind::File), &raw));
                 watches.files.remove(&child);
             }
             if self_watched {
-                out.push(ev(EventKind::Remove(RemoveKind::File), &child));
+                out.push(ev(EventKind::Remove(RemoveKind::File), &watches.spell(&child)));
             }
         }
     }
     if self_watched {
-        out.push(ev(EventKind::Remove(RemoveKind::Folder), dir));
+        out.push(ev(EventKind::Remove(RemoveKind::Folder), &watches.spell(dir)));
         watches.dirs.remove(dir);
     }
     if watches.dir_watched(dir) {
-        out.push(ev(EventKind::Remove(RemoveKind::Folder), dir));
+        out.push(ev(EventKind::Remove(RemoveKind::Folder), &watches.spell(dir)));
     }
 }
 
@@ -994,7 +1033,7 @@ pub fn run_l2(scn: &C10Scenario, stats: &mut RunStats) -> Vec<Violation> {
                         }
                         for e in events {
                             debounce.now = now;
-                            debounce.add_event(e, |p| fs.user_exists(&strip_cwd(p)));
+                            debounce.add_event(e, |p| fs.user_exists(&gen::normalize(&strip_cwd(p))));
                         }
                     }
                 }
@@ -1040,8 +1079,11 @@ pub fn run_l2(scn: &C10Scenario, stats: &mut RunStats) -> Vec<Violation> {
                         // that lose information (create + remove = nothing): such
                         // lost notifications are out of scope, so those styles are used
                         // only when the save is alone in its debounce window
-                        let pending = debounce.has_queue_under(&abs(path))
-                            || debounce.has_queue_under(&abs(gen::parent(path)));
+                        let pending = watches
+                            .event_paths(path)
+                            .iter()
+                            .chain(watches.event_paths(gen::parent(path)).iter())
+                            .any(|a| debounce.has_queue_under(a));
                         let mut followed = false;
                         let mut waited = 0u64;
                         for later in &scn.ops[op_index + 1..] {
@@ -1076,7 +1118,7 @@ pub fn run_l2(scn: &C10Scenario, stats: &mut RunStats) -> Vec<Violation> {
                         // adds one for every bundled dependency): the real stack delivers
                         // nothing at all for an atomic save there (calibrated) - a lost
                         // notification, out of scope
-                        let both = watches.files.contains(path);
+                        let both = watches.files.contains_key(path);
                         if only_inode || pending || followed || both {
                             SaveStyle::InPlace
                         } else {
@@ -1099,18 +1141,22 @@ pub fn run_l2(scn: &C10Scenario, stats: &mut RunStats) -> Vec<Violation> {
                     _ => Vec::new(),
                 };
                 let interferes = related.iter().any(|p| {
-                    let a = abs(p);
-                    debounce.has_queue_under(&a) || {
-                        let mut anc = a.parent();
-                        let mut hit = false;
-                        while let Some(x) = anc {
-                            if debounce.has_exact_queue(x) {
-                                hit = true;
+                    watches.event_paths(p).iter().any(|a| {
+                        debounce.has_queue_under(a) || {
+                            let mut anc = a.parent();
+                            let mut hit = false;
+                            while let Some(x) = anc {
+                                if debounce.has_exact_queue(x) {
+                                    hit = true;
+                                }
+                                anc = x.parent();
                             }
-                            anc = x.parent();
+                            hit
                         }
-                        hit
-                    } || debounce.has_queue_under(&abs(&format!("{}.tmp~", p)))
+                    }) || watches
+                        .event_paths(&format!("{}.tmp~", p))
+                        .iter()
+                        .any(|a| debounce.has_queue_under(a))
                 });
                 if interferes {
                     let until = now + TIMEOUT_MS + 2 * TICK_MS;
@@ -1138,7 +1184,7 @@ pub fn run_l2(scn: &C10Scenario, stats: &mut RunStats) -> Vec<Violation> {
                     .entry(format!("save:{:?}", style))
                     .or_insert(0) += matches!(other, Op::Edit { .. }) as u64;
                 for e in events {
-                    debounce.add_event(e, |p| fs.user_exists(&strip_cwd(p)));
+                    debounce.add_event(e, |p| fs.user_exists(&gen::normalize(&strip_cwd(p))));
                 }
             }
         }
